@@ -26,8 +26,8 @@ Inductive bcls := SMPose | SMTwist | SpatialVector | SpatialM6 | SpatialF6 | SMU
 Inductive pyc := C (c : cls) | B (b : bcls).
 
 Inductive op := Mul | Div | Add | Sub | Pow | MatMul | Eq | Ne | Xor | Or.
-(* method names looked up through the MRO: __op__ and __rop__ *)
-Inductive meth := Fwd (o : op) | Rev (o : op).
+(* method names looked up through the MRO: __op__, __rop__ and the in-place __iop__ *)
+Inductive meth := Fwd (o : op) | Rev (o : op) | Inp (o : op).
 
 Scheme Equality for cls.
 Scheme Equality for bcls.
@@ -38,6 +38,7 @@ Scheme Equality for meth.
 Definition all_cls : list cls := [SO2; SE2; SO3; SE3; Quaternion; UnitQuaternion; Twist2; Twist3; Plucker;
   SpatialVelocity; SpatialAcceleration; SpatialForce; SpatialMomentum; SpatialInertia; DualQuaternion; UnitDualQuaternion].
 Definition all_ops : list op := [Mul; Div; Add; Sub; Pow; MatMul; Eq; Ne; Xor; Or].
+Definition arith_ops : list op := [Mul; Div; Add; Sub; Pow; MatMul].
 Definition arith_op (o : op) : bool := match o with Mul | Div | Add | Sub | Pow | MatMul => true | _ => false end.
 
 (* ------------------------------------------------------------------ regenerated hierarchy *)
@@ -524,6 +525,45 @@ Fixpoint binop_fuel (fuel : nat) (n : nat) (o : op) (l r : kind) : outcome :=
 (* nesting depth of the operator methods is at most 3 (DualQuaternion.* -> Quaternion.* ; SMPose.__ne__ -> == ; list * x) *)
 Definition binop (n : nat) (o : op) (l r : kind) : outcome := binop_fuel 4 n o l r.
 
+(* ------------------------------------------------------------------ in-place operators  x op= y *)
+(* the __iop__ methods (every one of them delegates):
+     SMPose.__imul__/__itruediv__/__iadd__/__isub__ (super_pose.py):  return left.__op__(right)      -- a direct method call
+     Quaternion.__imul__, UnitQuaternion.__imul__, Quaternion.__ipow__ (quaternion.py):  return left.__mul__(right) / self.__pow__(n)
+     SMUserList.__iadd__/__imul__ (smuserlist.py, fix 5371e50):  return self + other / self * other -- the whole binary protocol
+   collections.UserList's own __iadd__/__imul__ (in-place list extension / repetition) are shadowed for every class; the model has
+   no body for them (Unmodelled: fail closed). *)
+Definition ibody (n : nat) (k : pyc) (o : op) (self : cls) (other : kind) : mres :=
+  let direct := call n (binop n) (owner self (Fwd o)) (Fwd o) self other in
+  match k, o with
+  | B SMPose, Mul | B SMPose, Div | B SMPose, Add | B SMPose, Sub => direct
+  | C Quaternion, Mul | C UnitQuaternion, Mul | C Quaternion, Pow => direct
+  | B SMUserList, Add | B SMUserList, Mul => Out (binop n o (Obj self) other)
+  | _, _ => Out Unmodelled
+  end.
+(* PyNumber_InPlace<Op> (Objects/abstract.c binary_iop1): type(x).__iop__ if there is one; NotImplemented or absent -> the binary
+   protocol; the result is rebound to x.  float, int and tuple have no in-place slots.  An ndarray on the left runs the ufunc with
+   out=x (same coercion of the other operand as the binary form).  A list on the left: *= goes through the binary nb_multiply
+   route (the object's __rmul__) and then sq_inplace_repeat, which needs an int; += asks the object's __radd__ first and only
+   then list.extend(obj), which iterates the object. *)
+Definition iop (n : nat) (o : op) (l r : kind) : outcome :=
+  match l, r with
+  | Obj cl, _ =>
+      match owner cl (Inp o) with
+      | Some k => match ibody n k o cl r with Out x => x | NotImpl => binop n o l r end
+      | None => binop n o l r
+      end
+  | KArr _, Obj cr => match numpy_arith (binop n) o cr true with Raise => Raise | _ => Unmodelled end
+  | KSeq false _, Obj cr =>
+      match o with
+      | Add => match call n (binop n) (owner cr (Rev Add)) (Rev Add) cr l with
+               | Out x => x
+               | NotImpl => if is_seq cr then Unmodelled else Raise       (* list.extend(obj): obj is not iterable *)
+               end
+      | _ => binop n o l r
+      end
+  | _, _ => binop n o l r
+  end.
+
 (* ================================================================== the documented table *)
 (* Must: named by the property text -- the result is required; May: defined only by a docstring table -- if a value is
    returned it must be this one, raising is tolerated; MustRaise: every other pairing under an arithmetic operator;
@@ -640,13 +680,23 @@ Definition is_seq_kind (k : kind) : bool := match k with KSeq _ _ => true | _ =>
 Definition seq_cells : list cell :=
   filter (fun c => is_seq_kind (c_l c) || is_seq_kind (c_r c)) (cells_for lengths (map Obj all_cls ++ seq_kinds)).
 
+(* the in-place table: the six arithmetic operators as  x op= y  over every operand kind of the other tables (objects, float, int,
+   arrays, lists, tuples), both lengths *)
+Definition inplace_cells : list cell :=
+  flat_map (fun n => flat_map (fun l => flat_map (fun r =>
+    if is_obj l || is_obj r then map (fun o => {| c_n := n; c_op := o; c_l := l; c_r := r |}) arith_ops else [])
+    (all_kinds ++ seq_kinds)) (all_kinds ++ seq_kinds)) lengths.
+
 Definition model (c : cell) : outcome := binop (c_n c) (c_op c) (c_l c) (c_r c).
+Definition imodel (c : cell) : outcome := iop (c_n c) (c_op c) (c_l c) (c_r c).
 Definition spec_of (c : cell) : spec := documented (c_n c) (c_op c) (c_l c) (c_r c).
 Definition cell_ok (c : cell) : bool := conforms (spec_of c) (model c).
 (* one line per cell, printed by the check and compared with the implementation *)
 Definition report_for (cells : list cell) : list (nat * op * kind * kind * outcome * spec) :=
   map (fun c => (c_n c, c_op c, c_l c, c_r c, model c, spec_of c)) cells.
 Definition report := report_for all_cells.
+Definition ireport : list (nat * op * kind * kind * outcome * spec) :=
+  map (fun c => (c_n c, c_op c, c_l c, c_r c, imodel c, spec_of c)) inplace_cells.
 
 End Model.
 
